@@ -61,6 +61,11 @@ pub const EPS: [Ep; 17] = [
 ];
 
 impl Ep {
+    /// the call carries an amount that debits / credits somebody
+    fn has_amount(self) -> bool {
+        use Ep::*;
+        matches!(self, TokApprove | TokTransfer | TokTransferFrom | TokBurn | TokBurnFrom | TokMintFrom | GasPay | GasAdd | ItsTransfer | ItsTransferCanonical | ItsDeployRemote | ItsDeployRemoteCanonical | ExampleSend)
+    }
     /// authorisation needed only at the entry point itself (a calling contract needs no entries)
     fn single_level(self) -> bool {
         use Ep::*;
@@ -120,6 +125,9 @@ pub struct Case {
     /// every upgradable contract was upgraded by its owner and not yet migrated
     #[serde(default)]
     pub windows_open: bool,
+    /// the amount argument is negative: nobody may be debited or credited "backwards", whoever signs
+    #[serde(default)]
+    pub negative_amount: bool,
 }
 
 struct W<'a> {
@@ -349,7 +357,7 @@ impl Property for C07 {
         "C07"
     }
     fn rule(&self) -> &'static str {
-        "every case = (one of 17 entry points that debit / burn / pay gas from / send as / consume for / deploy under the name of / execute as an operator a named address: token approve, transfer, transfer_from, burn, burn_from, mint_from; gas pay_gas, add_gas; gateway call_contract, validate_message; ITS deploy_interchain_token, deploy_remote_interchain_token, interchain_transfer (burn and lock paths), deploy_remote_canonical_token; operators execute; example send) x (one of 10 authoriser classes: the named address, its counterparty (recipient / allowance grantor / sender), the owner of the called contract, a stranger, nobody, the named address for other arguments, a contract naming itself without entries, a contract naming another address, every address argument aliased to the called contract itself or to the named address with nobody signing) x world state (with / without an allowance held by the counterparty; with / without / with an expired grantor's allowance for delegated spends; named address = an ordinary account or the token's owner/minter; amount 1..40; ordinary state or every contract upgraded-but-not-migrated). The full 17x10 matrix is enumerated in every run for both allowance states; proptest samples amounts. Engine: the authorisation trees (incl. nested burn / gas-payment nodes) are recorded in a twin world with all auths mocked and replayed in a fresh identical world signed by exactly one principal. Oracle: success iff the named address authorised (or is the directly calling contract); every refusal leaves the ledger snapshot identical. non-trivial = authoriser is not simply the named address; distinct by Debug hash"
+        "every case = (one of 17 entry points that debit / burn / pay gas from / send as / consume for / deploy under the name of / execute as an operator a named address: token approve, transfer, transfer_from, burn, burn_from, mint_from; gas pay_gas, add_gas; gateway call_contract, validate_message; ITS deploy_interchain_token, deploy_remote_interchain_token, interchain_transfer (burn and lock paths), deploy_remote_canonical_token; operators execute; example send) x (one of 10 authoriser classes: the named address, its counterparty (recipient / allowance grantor / sender), the owner of the called contract, a stranger, nobody, the named address for other arguments, a contract naming itself without entries, a contract naming another address, every address argument aliased to the called contract itself or to the named address with nobody signing) x world state (with / without an allowance held by the counterparty; with / without / with an expired grantor's allowance for delegated spends; named address = an ordinary account or the token's owner/minter; amount 1..40 or its negative; ordinary state or every contract upgraded-but-not-migrated). The full 17x10 matrix is enumerated in every run for both allowance states; proptest samples amounts. Engine: the authorisation trees (incl. nested burn / gas-payment nodes) are recorded in a twin world with all auths mocked and replayed in a fresh identical world signed by exactly one principal. Oracle: success iff the named address authorised (or is the directly calling contract); every refusal leaves the ledger snapshot identical. non-trivial = authoriser is not simply the named address; distinct by Debug hash"
     }
     fn fixed_is_exhaustive(&self) -> Option<&'static str> {
         Some("entry-point x authoriser matrix (17 x 10) x {with,without} counterparty allowance enumerated completely; amounts sampled")
@@ -369,6 +377,7 @@ impl Property for C07 {
                 // half of the "no usable allowance" worlds are "approved, but expired"
                 grantor_allowance_expired: without_grantor_allowance && amount % 2 == 0,
                 windows_open: amount % 5 == 0,
+                negative_amount: amount % 7 == 0,
             })
             .boxed()
     }
@@ -377,20 +386,24 @@ impl Property for C07 {
         for ep in EPS {
             for p in PRINCIPALS {
                 for al in [false, true] {
-                    v.push(Case { ep, principal: p, with_allowance_for_counterparty: al, amount: 3, without_grantor_allowance: false, named_is_token_owner: false, grantor_allowance_expired: false , windows_open: false });
+                    v.push(Case { ep, principal: p, with_allowance_for_counterparty: al, amount: 3, without_grantor_allowance: false, named_is_token_owner: false, grantor_allowance_expired: false , windows_open: false, negative_amount: false });
                 }
                 if matches!(p, Principal::Nobody | Principal::Stranger | Principal::AllAddressesAliasCalledContract | Principal::ContractNamingOther) {
-                    v.push(Case { ep, principal: p, with_allowance_for_counterparty: false, amount: 3, without_grantor_allowance: false, named_is_token_owner: false, grantor_allowance_expired: false, windows_open: true });
+                    v.push(Case { ep, principal: p, with_allowance_for_counterparty: false, amount: 3, without_grantor_allowance: false, named_is_token_owner: false, grantor_allowance_expired: false, windows_open: true, negative_amount: false });
+                }
+                if matches!(p, Principal::Named | Principal::Counterparty) && ep.has_amount() {
+                    v.push(Case { ep, principal: p, with_allowance_for_counterparty: true, amount: 3, without_grantor_allowance: false, named_is_token_owner: false, grantor_allowance_expired: false, windows_open: false, negative_amount: true });
+                    v.push(Case { ep, principal: p, with_allowance_for_counterparty: true, amount: 3, without_grantor_allowance: false, named_is_token_owner: true, grantor_allowance_expired: false, windows_open: false, negative_amount: true });
                 }
                 // the named address is the token owner / a minter
-                v.push(Case { ep, principal: p, with_allowance_for_counterparty: false, amount: 3, without_grantor_allowance: false, named_is_token_owner: true, grantor_allowance_expired: false , windows_open: false });
+                v.push(Case { ep, principal: p, with_allowance_for_counterparty: false, amount: 3, without_grantor_allowance: false, named_is_token_owner: true, grantor_allowance_expired: false , windows_open: false, negative_amount: false });
                 if matches!(ep, Ep::TokTransferFrom | Ep::TokBurnFrom) {
                     // no allowance from the grantor: nobody's authorisation is enough
                     for owner in [false, true] {
                         for expired in [false, true] {
                             // amount 500 = the whole (expired) allowance; 3 = part of it
                             for amount in [3u8, 250] {
-                                v.push(Case { ep, principal: p, with_allowance_for_counterparty: false, amount, without_grantor_allowance: true, named_is_token_owner: owner, grantor_allowance_expired: expired , windows_open: false });
+                                v.push(Case { ep, principal: p, with_allowance_for_counterparty: false, amount, without_grantor_allowance: true, named_is_token_owner: owner, grantor_allowance_expired: expired , windows_open: false, negative_amount: false });
                             }
                         }
                     }
@@ -406,6 +419,32 @@ impl Property for C07 {
         cx.label(&format!("{:?}", case.principal));
         if case.principal != Principal::Named {
             cx.nontrivial();
+        }
+        if case.negative_amount && ep.has_amount() {
+            // every balance that could be touched is watched through the full ledger snapshot: the call must fail
+            cx.label("negative_amount");
+            cx.nontrivial();
+            let w = build(case, false);
+            let env = &w.s.env;
+            let inv = invocation(&w, ep, -amount, false);
+            let signer: Option<Address> = match case.principal {
+                Principal::Named | Principal::NamedOtherArgs => Some(w.named.clone()),
+                Principal::Counterparty => Some(w.counterparty.clone()),
+                Principal::ContractOwner => Some(w.owner_of_called.clone()),
+                Principal::Stranger => Some(w.s.pool[STRANGER].clone()),
+                _ => None,
+            };
+            match signer {
+                // whoever signs, also with every authorisation mocked, a negative amount must be refused
+                Some(_) => env.mock_all_auths_allowing_non_root_auth(),
+                None => env.set_auths(&[]),
+            }
+            let snap0 = snapshot(env);
+            let ev0 = events_len(env);
+            cx.count("must_fail");
+            ensure_p!(!call_direct(&w, &inv), "{:?}: accepted a negative amount ({}): somebody is debited or credited backwards without having authorised it", ep, -amount);
+            ensure_p!(snapshot(env) == snap0 && events_len(env) == ev0, "{:?}: refused call changed state", ep);
+            return Ok(());
         }
         match case.principal {
             Principal::ContractNamingItself => {
